@@ -997,6 +997,22 @@ impl World {
                 }
                 o
             }
+            ["startupd", rest @ ..] => {
+                // start_update_thread without waiting for the thread (the script stays in the global slot)
+                let (r, rest2) = parse_resp(rest);
+                let dl = if rest2[0] == "err" { None } else { Some(self.blob(rest2[0])) };
+                *SPAWNED_ENV.lock().unwrap() = Some((r, dl));
+                c_api::shorebird_start_update_thread();
+                "unit".into()
+            }
+            ["waitbgnet"] => {
+                // until the library's update thread is inside its (hung) patch check, at most 3 s
+                let t0 = std::time::Instant::now();
+                while !crate::sched::BG_IN_NET.load(std::sync::atomic::Ordering::SeqCst) && t0.elapsed().as_secs() < 3 {
+                    std::thread::sleep(std::time::Duration::from_millis(2));
+                }
+                crate::sched::BG_IN_NET.load(std::sync::atomic::Ordering::SeqCst).to_string()
+            }
             [k @ ("update0" | "updatet"), rest @ ..] => {
                 let (r, rest2) = parse_resp(rest);
                 let dl = if rest2[0] == "err" {
@@ -1087,6 +1103,8 @@ pub fn main(args: &[String]) -> i32 {
             }
             "stall" => {
                 crate::sched::STALL.store(toks[1] == "on", std::sync::atomic::Ordering::SeqCst);
+                crate::sched::STALL_BG.store(toks[1] == "bg", std::sync::atomic::Ordering::SeqCst);
+                crate::sched::BG_IN_NET.store(false, std::sync::atomic::Ordering::SeqCst);
             }
             "faultspec" => {}
             "dls" => {
